@@ -736,6 +736,8 @@ class Interp:
             name = e.get('name')
             recv = self.val(e['recv'], env)
             args = [self.val(a, env) for a in e.get('args', [])]
+            if name in ('is_empty', 'len') and not args and isinstance(recv, tuple) and len(recv) == 3 and recv[0] == 'range' and isinstance(recv[1], int) and isinstance(recv[2], int):
+                return (recv[2] < recv[1]) if name == 'is_empty' else max(0, recv[2] - recv[1] + 1)
             if name == 'contains' and isinstance(recv, tuple) and recv[0] == 'range':
                 return recv[1] <= args[0] <= recv[2]
             if isinstance(recv, int) and not isinstance(recv, bool) and name in BYTE_PREDICATES and not args:
@@ -1013,6 +1015,17 @@ class Interp:
                     raise EvalPanic(f'`{name}` on None (line {e.get("l")})')
                 if name == 'unwrap_or' and len(args) == 1:
                     return recv[2][0] if some else args[0]
+                if name == 'unwrap_or_default' and not args:
+                    if some:
+                        return recv[2][0]
+                    ty = (e.get('t') or '').replace('&', '').replace("'static ", '').strip()
+                    if ty in ('str', 'alloc::string::String') or ty.startswith("'") and ty.split(' ', 1)[-1] == 'str':
+                        return ''
+                    if ty == 'bool':
+                        return False
+                    if ty in ('usize', 'u8', 'u16', 'u32', 'u64', 'u128', 'isize', 'i8', 'i16', 'i32', 'i64', 'i128'):
+                        return 0
+                    raise Unanalysable(f'default of `{ty}`')
                 if name in ('map_or',) and len(args) == 2:
                     return self.apply(args[1], [recv[2][0]]) if some else args[0]
                 if name == 'map' and len(args) == 1:
@@ -1051,6 +1064,8 @@ class Interp:
             base = self.val(e['base'], env)
             if isinstance(base, tuple) and base and base[0] == 'struct' and e.get('name') in base[2]:
                 return base[2][e['name']]
+            if isinstance(base, tuple) and len(base) == 3 and base[0] == 'range' and e.get('name') in ('start', 'end') and isinstance(base[1 if e['name'] == 'start' else 2], int):
+                return base[1] if e['name'] == 'start' else base[2] + 1          # ranges are kept with an inclusive end
             if isinstance(base, tuple) and base and base[0] != 'struct' and str(e.get('name')).isdigit() and int(e['name']) < len(base):
                 return base[int(e['name'])]
             raise Unanalysable(f'field `{e.get("name")}` of a value the evaluator does not model')
